@@ -29,6 +29,10 @@ const AnswerPrefix = "@@ANSWER "
 // goroutine dump lands in Stderr) and is reported with Died and TimedOut set.
 var JobTimeout = 300 * time.Second
 
+// PoolExe names, per worker name, another binary of this harness to run the workers of (default: this executable). Used
+// by checks of the plain build whose workers need the scheduler-instrumented build.
+var PoolExe = map[string]string{}
+
 // Pool runs jobs on n long-lived worker processes (vcheck worker <name> args...). Protocol: one job per stdin line, exactly
 // one answer line per job on stdout, marked with AnswerPrefix (other lines are ignored). A worker that dies is restarted for the
 // remaining jobs; the job it died on is reported with Died=true.
@@ -47,6 +51,9 @@ func Pool(name string, args []string, n int, jobs []string, env ...string) []Poo
 		return i
 	}
 	self, _ := os.Executable()
+	if exe := PoolExe[name]; exe != "" {
+		self = exe
+	}
 	var wg sync.WaitGroup
 	if n > len(jobs) {
 		n = len(jobs)
